@@ -1,6 +1,8 @@
 import json
 import os
 import re
+import time
+from concurrent.futures import ThreadPoolExecutor
 
 import vf
 
@@ -53,16 +55,19 @@ def run(ctx):
     if not proofs["ok"]:
         broken.append("proof obligations of Props/%s.v do not check: %s" % (pid, (proofs.get("broken_files") or proofs.get("nonstd_axioms") or proofs["log"][-800:])))
 
-    n = ctx.n(60, 1500)
+    n = ctx.n(30, 1500)
     tmo = 600 if ctx.tier == "quick" else 3000
-    # 1. instrumented run: trace validation against the model + oracle
     rep, n1, n2 = instrumented_copy(ctx)
     if n1 == 0 or n2 == 0:
         broken.append("index_mutex.go no longer declares a sync.RWMutex and a sync.Mutex field: the model's lock structure does not apply")
-    hr = vf.go_harness(ctx, PKG, "TestVerifC31$", [HFILE], n, env={"VERIF_C31_MODE": "instr"}, timeout=tmo,
+    # both runs concurrently: 1. instrumented (trace validation + oracle)  2. plain, unmodified source (oracle only)
+    with ThreadPoolExecutor(max_workers=2) as ex:
+        f1 = ex.submit(vf.go_harness, ctx, PKG, "TestVerifC31$", [HFILE], n, env={"VERIF_C31_MODE": "instr"}, timeout=tmo,
                        extra_replace=rep, out_name="instr.jsonl")
-    # 2. plain run: unmodified source, oracle only
-    hp = vf.go_harness(ctx, PKG, "TestVerifC31$", [HFILE], n, env={"VERIF_C31_MODE": "plain"}, timeout=tmo, out_name="plain.jsonl")
+        time.sleep(1.5)  # vf.make_overlay names its file by directory size: keep the two calls apart
+        f2 = ex.submit(vf.go_harness, ctx, PKG, "TestVerifC31$", [HFILE], n, env={"VERIF_C31_MODE": "plain"}, timeout=tmo,
+                       out_name="plain.jsonl")
+        hr, hp = f1.result(), f2.result()
     recs = hr["records"] + hp["records"]
     cases = [r for r in hr["records"] if r.get("kind") == "case"]
     for r in recs:
@@ -73,7 +78,7 @@ def run(ctx):
             broken.append("harness TestVerifC31 (%s) failed (rc=%d): %s" % (name, h["rc"], h["log"][-1500:]))
     ev = dict(ok=True, bad=[], evaluated=0, log="")
     if cases:
-        ev = vf.coq_eval_cases(ctx, pid, IMPORTS, "c31case", "c31_mismatches", [c["coq"] for c in cases], shard=20)
+        ev = vf.coq_eval_cases(ctx, pid, IMPORTS, "c31case", "c31_mismatches", [c["coq"] for c in cases], shard=30)
         if not ev["ok"]:
             broken.append("model evaluation failed: " + ev["log"][-1500:])
         for i in ev["bad"][:10]:
